@@ -395,10 +395,11 @@ public:
     std::vector<T> v((size_t)((std::abs(from - to) + by / 100) / by) + 1);
     T step = from < to ? by : -by;
     T val(from);
-    for (auto& vi:v)
+    for (size_t i = 0; i < v.size(); ++i)
     {
-      vi = val;
-      val += step;
+      v[i] = val;
+      if (i + 1 < v.size())
+        val += step; // Nothing is computed past the last value (an overflow when it is the largest T).
     }
 
     return v;
